@@ -244,6 +244,143 @@ theorem build_key {l : List Signer} (hwf : WF l) {b : Built} (hb : build l = .ok
       | zero => rw [hc] at hb; simp [ofClose] at hb
     · simp [hn] at hb
 
+/-! ### the signer's path: stakes from the node's own store -/
+
+def stakeIn (stakes : List (Nat × Nat)) (party : Nat) : Option Nat := (stakes.find? (·.1 == party)).map (·.2)
+
+theorem associate_cons (stakes : List (Nat × Nat)) (x : Nat × Nat × Nat) (r : List (Nat × Nat × Nat)) (s : List Signer) :
+    associate stakes (x :: r) = some s ↔
+      ∃ st rest, stakeIn stakes x.1 = some st ∧ associate stakes r = some rest ∧ s = ⟨x.1, x.2.1, x.2.2, st⟩ :: rest := by
+  obtain ⟨party, pool, vk⟩ := x
+  simp only [associate, stakeIn]
+  cases h1 : (stakes.find? (·.1 == party)).map (·.2) with
+  | none => simp
+  | some st =>
+    cases h2 : associate stakes r with
+    | none => simp
+    | some rest =>
+      simp only [Option.some.injEq]
+      constructor
+      · intro h; exact ⟨st, rest, rfl, rfl, h.symm⟩
+      · rintro ⟨st', rest', h1', h2', rfl⟩
+        rw [← h1', ← h2']
+
+/-- the association keeps the listed order: announcing the signers in another order yields the same signers with the
+same stakes, in that other order -/
+theorem associate_perm (stakes : List (Nat × Nat)) {l₁ l₂ : List (Nat × Nat × Nat)} (h : l₁.Perm l₂) :
+    ∀ s₁, associate stakes l₁ = some s₁ → ∃ s₂, associate stakes l₂ = some s₂ ∧ s₁.Perm s₂ := by
+  induction h with
+  | nil => intro s₁ h; exact ⟨s₁, h, List.Perm.refl _⟩
+  | cons x _ ih =>
+    intro s₁ h
+    obtain ⟨st, rest, h1, h2, rfl⟩ := (associate_cons stakes x _ s₁).mp h
+    obtain ⟨r₂, h3, hp⟩ := ih rest h2
+    exact ⟨_, (associate_cons stakes x _ _).mpr ⟨st, r₂, h1, h3, rfl⟩, hp.cons _⟩
+  | swap x y l =>
+    intro s₁ h
+    obtain ⟨sty, resty, h1, h2, rfl⟩ := (associate_cons stakes y _ s₁).mp h
+    obtain ⟨stx, rest, h3, h4, rfl⟩ := (associate_cons stakes x _ resty).mp h2
+    refine ⟨_, (associate_cons stakes x _ _).mpr ⟨stx, _, h3, (associate_cons stakes y _ _).mpr ⟨sty, rest, h1, h4, rfl⟩, rfl⟩, ?_⟩
+    exact List.Perm.swap _ _ _
+  | trans _ _ ih₁ ih₂ =>
+    intro s₁ h
+    obtain ⟨s₂, h2, p12⟩ := ih₁ s₁ h
+    obtain ⟨s₃, h3, p23⟩ := ih₂ s₂ h2
+    exact ⟨s₃, h3, p12.trans p23⟩
+
+theorem associate_none_perm (stakes : List (Nat × Nat)) {l₁ l₂ : List (Nat × Nat × Nat)} (h : l₁.Perm l₂)
+    (h1 : associate stakes l₁ = none) : associate stakes l₂ = none := by
+  cases h2 : associate stakes l₂ with
+  | none => rfl
+  | some s₂ =>
+    obtain ⟨s₁, h3, _⟩ := associate_perm stakes h.symm s₂ h2
+    rw [h1] at h3; cases h3
+
+def Signer.triple (s : Signer) : Nat × Nat × Nat := (s.party, s.pool, s.vk)
+
+theorem associate_triples (stakes : List (Nat × Nat)) :
+    ∀ (l : List (Nat × Nat × Nat)) (s : List Signer), associate stakes l = some s → s.map Signer.triple = l := by
+  intro l
+  induction l with
+  | nil => intro s h; simp [associate] at h; subst h; rfl
+  | cons x r ih =>
+    intro s h
+    obtain ⟨st, rest, _, h2, rfl⟩ := (associate_cons stakes x r s).mp h
+    simp [Signer.triple, ih rest h2]
+
+/-- when the node's stake store holds, for every listed party, the stake the aggregator recorded, the association
+rebuilds exactly the aggregator's list -/
+theorem associate_consistent (stakes : List (Nat × Nat)) :
+    ∀ (ls : List Signer), (∀ s ∈ ls, stakeIn stakes s.party = some s.stake) →
+      associate stakes (ls.map Signer.triple) = some ls := by
+  intro ls
+  induction ls with
+  | nil => intro _; rfl
+  | cons a r ih =>
+    intro h
+    rw [List.map_cons]
+    exact (associate_cons stakes _ _ _).mpr ⟨a.stake, r, h a List.mem_cons_self, ih (fun s hs => h s (List.mem_cons_of_mem _ hs)), rfl⟩
+
+inductive SignerErr where
+  | nostake                    -- a listed party has no stake in the node's store
+  | build (e : BuildErr)
+  | unregistered               -- the node's own (stake, key) entry is not in the closed registration
+deriving DecidableEq, Repr
+
+/-- the signer node: `associate_signers_with_stake`, `SignerBuilder::new`, `restore_signer_from_initializer`
+(`self` = the stake and key of the node's protocol initializer); result: the registration it signs against and its slot -/
+def signerPath (stakes : List (Nat × Nat)) (l : List (Nat × Nat × Nat)) (self : Entry) : Except SignerErr (Built × Nat) :=
+  match associate stakes l with
+  | none => .error .nostake
+  | some s =>
+    match build s with
+    | .error e => .error (.build e)
+    | .ok b =>
+      match b.slot self with
+      | none => .error .unregistered
+      | some i => .ok (b, i)
+
+/-- the announced list is an honest list: every entry under its own identity, no party twice -/
+def WFT (l : List (Nat × Nat × Nat)) : Prop := (∀ x ∈ l, x.2.1 = x.1) ∧ (l.map (·.1)).Nodup
+
+theorem associate_wf (stakes : List (Nat × Nat)) {l : List (Nat × Nat × Nat)} (hwf : WFT l) {s : List Signer}
+    (h : associate stakes l = some s) : WF s := by
+  have ht := associate_triples stakes l s h
+  constructor
+  · intro x hx
+    have : x.triple ∈ l := by rw [← ht]; exact List.mem_map_of_mem hx
+    exact hwf.1 _ this
+  · have : s.map (·.party) = l.map (·.1) := by
+      rw [← ht, List.map_map]; rfl
+    rw [this]; exact hwf.2
+
+/-- **Signer path, order independence**: whatever the order in which the aggregator announces the registered signers,
+the node ends with the same outcome: same error class, or same closed registration (aggregate key, total stake) and
+same slot -/
+theorem signerPath_perm (stakes : List (Nat × Nat)) {l₁ l₂ : List (Nat × Nat × Nat)} (h : l₁.Perm l₂) (hwf : WFT l₁)
+    (self : Entry) : signerPath stakes l₁ self = signerPath stakes l₂ self := by
+  unfold signerPath
+  cases h1 : associate stakes l₁ with
+  | none => rw [associate_none_perm stakes h h1]
+  | some s₁ =>
+    obtain ⟨s₂, h2, hp⟩ := associate_perm stakes h s₁ h1
+    rw [h2]
+    simp only
+    rw [build_perm hp (associate_wf stakes hwf h1)]
+
+/-- **The signer path is the aggregator / client path**: with a stake store that agrees with the aggregator's records on
+the listed parties, the node builds exactly `build ls` — the function the epoch service and the client evaluate -/
+theorem signerPath_eq_build (stakes : List (Nat × Nat)) (ls : List Signer)
+    (hc : ∀ s ∈ ls, stakeIn stakes s.party = some s.stake) (self : Entry) :
+    signerPath stakes (ls.map Signer.triple) self =
+      match build ls with
+      | .error e => .error (.build e)
+      | .ok b => match b.slot self with
+        | none => .error .unregistered
+        | some i => .ok (b, i) := by
+  unfold signerPath
+  rw [associate_consistent stakes ls hc]
+
 /-- a party listed twice under two stakes: the LAST stake wins, so the outcome depends on the order — outside
 the honest input space (`WF`), recorded as an observation -/
 theorem dup_party_order_dependent :
